@@ -224,17 +224,28 @@ where
     print!("|");
     let len = labels.len();
     for (i, label) in labels.iter().enumerate() {
-        print!(" {:indent$} |", label, indent = widths[i]);
+        print!(" {} |", padded(label, widths[i]));
     }
     println!(
-        " {:indent$} |",
-        match result {
-            BDD::True => "True",
-            BDD::False => "False",
-            _ => unreachable!(),
-        },
-        indent = widths[len]
+        " {} |",
+        padded(
+            match result {
+                BDD::True => "True",
+                BDD::False => "False",
+                _ => unreachable!(),
+            },
+            widths[len]
+        )
     );
+}
+
+// left-align a cell in a column of the given width
+// (a run-time width in a format string panics above u16::MAX, which a long variable name reaches)
+fn padded<D: Display>(value: D, width: usize) -> String {
+    let mut cell = value.to_string();
+    let len = cell.chars().count();
+    cell.push_str(&" ".repeat(width.saturating_sub(len)));
+    cell
 }
 
 // print header
@@ -246,11 +257,11 @@ where
     print!("|");
     for free_var in labels {
         let len = 1 + max(5, free_var.len());
-        print!(" {:indent$}|", free_var, indent = len);
+        print!(" {}|", padded(free_var, len));
     }
     println!();
     for width in widths {
-        print!("|{:->width$}", "", width = width + 2);
+        print!("|{}", "-".repeat(width + 2));
     }
     println!("|");
 }
